@@ -7,7 +7,7 @@ import random
 
 import coregen
 from corerun import sx
-from checks import corefam4
+from checks import corefam4, corefam6t, corefam6v, corefam6c
 
 LEVEL = "proof"
 BUILDS = {"quick": ["py"], "thorough": ["py", "cy"]}
@@ -882,6 +882,10 @@ def run_case_for(pid, case):
         return run_c15(case)
     if case.get("special") in corefam4.RUNNERS:
         return corefam4.RUNNERS[case["special"]](case)
+    for fam6 in (corefam6t, corefam6v, corefam6c):
+        # round-5 families: threads / priorities (t), values (v), contexts (c); runners take (case, pid)
+        if case.get("special") in fam6.RUNNERS:
+            return fam6.RUNNERS[case["special"]](case, pid)
     if case.get("special") == "exotic":
         return run_exotic(case)
     if case.get("special") == "longloop":
